@@ -69,6 +69,8 @@ def main():
                                 "tail": log[-400:] if rc not in (0, 1) else ""}
     finally:
         sh(["git", "-C", "/repo", "worktree", "remove", "--force", str(wt)])
+        # the checks regenerate lean/ExoModel/Gen/* from the tree under test: put the committed (unchanged-tree) copies back
+        sh(["git", "-C", str(ROOT), "checkout", "--", "lean/ExoModel/Gen"])
     print(json.dumps(out, indent=1))
     return 0
 
